@@ -18,17 +18,17 @@ EXPLANATION = ("Pairs of models built in one process from the same symbolic para
                "spatial acceleration of every body, u and udot are preserved (gravity and mobility forces applied). (b) FunctionBased mobilizers (MobilizedBody::Custom "
                "bridge) mirroring Pin, Slider, Universal, Cylinder, Planar, Gimbal, Bushing, Translation versus the built-in ones: same poses, velocities, accelerations, "
                "reaction forces, qdot, udot, energies.")
-BOUNDS = ("(d) trees of 1-3 bodies from the catalogue (6 quick / 42 thorough), (c) Y = 7 mobilizer types quick, 15 thorough (Euler and quaternion; not Screw and "
+BOUNDS = ("(d) trees of 1-3 bodies from the catalogue (6 quick / 18 thorough), (c) Y = 7 mobilizer types quick, 15 thorough (Euler and quaternion; not Screw and "
           "CantileverFreeBeam), (a) 6 quick / 15 thorough trees of 1-3 bodies containing quaternion mobilizers, each in both directions, the unit quaternions parametrised by "
           "three half angles, (b) FunctionBased mirrors of Pin, Slider, Universal, Cylinder, Planar, Gimbal, Bushing, Translation alone, under a Pin and over a Pin, forward and "
-          "reversed; all linearly occurring inputs (u, gravity, applied forces, mobility forces) free plus k coordinates at a time (1 quick / 2 thorough; (a): accelerations "
-          "and udot only with every coordinate pinned), others pinned at exact base points (2 quick / 6 thorough)")
+          "reversed; all linearly occurring inputs (u, gravity, applied forces, mobility forces) free plus one coordinate at a time ((a): accelerations "
+          "and udot only with every coordinate pinned), others pinned at exact base points (2 quick / 6 thorough; (d) thorough 3), at most 3 quick / 5 thorough free sets per base point")
 NOT_COVERED = ("models with constraints (multipliers: LAPACK); MobilizedBody::Custom written directly against the Implementation interface (only FunctionBased, which is "
                "built on Custom, with linear coordinate functions); (c) for Screw and CantileverFreeBeam (coordinate occurs outside sin/cos: the two-model dynamics exceeds the "
                "encoder's size limit; their reversal is covered kinematically by C05); (a) the composition of both conversions in one run (each direction is proved "
                "separately, from arbitrary unit quaternions resp. arbitrary Euler angles), accelerations with a free coordinate, and accelerations across the conversion "
-               "for Free/FreeLine (size limit; their poses and velocities are covered); more than k simultaneously free "
-               "coordinates; only the executed branch of convertToEulerAngles/convertToQuaternions (asin/atan2 ranges, quaternion extraction case) and of the Free fit used "
+               "for Free/FreeLine (size limit; their poses and velocities are covered); more than one simultaneously free "
+               "coordinate; only the executed branch of convertToEulerAngles/convertToQuaternions (asin/atan2 ranges, quaternion extraction case) and of the Free fit used "
                "to place the second model in (c); float; rounding")
 
 
@@ -40,9 +40,12 @@ def instances(tier, seed):
     pick = [s for s in specs if s[0].startswith(("2:", "3"))]
     ones = [s for s in specs if s[0].startswith("1:")]
     rng.shuffle(ones)
-    pick = pick[:4 if tier == "quick" else 30] + ones[:2 if tier == "quick" else 12]
+    pick = pick[:4 if tier == "quick" else 12] + ones[:2 if tier == "quick" else 6]
     for n, spec, e in pick:
-        out.append(dict(name="weld:" + n, harness="C06_weldoffset.cpp", args=[spec, "1" if e else "0"]))
+        d = dict(name="weld:" + n, harness="C06_weldoffset.cpp", args=[spec, "1" if e else "0"])
+        if tier == "thorough":
+            d["base_points"] = 3
+        out.append(d)
     # (c) direction: reversed mobilizer with swapped roles
     # (Screw and CantileverFreeBeam are left out: their coordinate also occurs outside sin/cos, which adds a variable to every
     # polynomial of the two-model dynamics and exceeds the encoder's size limit; their reversal is covered kinematically by C05)
@@ -87,7 +90,9 @@ def free_sets(inst, tr, tier, rng):
         angles = [n for n, kind, _, _ in tr.inputs if (n.startswith("q") and n[1:].isdigit() or n.startswith("e")) and kind == "angle"]
         rng.shuffle(angles)
         return [lin] + [lin + [a] for a in angles[:1 if tier == "quick" else 3]]
-    return cat.coordinate_free_sets(inst, tr, tier, rng, always=("u", "g_", "f", "Fext_", "F"))
+    # one free coordinate at a time in both tiers: two models' dynamics with two free angles is too slow for the thorough budget;
+    # thorough = more trees, more base points, more single-coordinate free sets
+    return cat.coordinate_free_sets(inst, tr, tier, rng, always=("u", "g_", "f", "Fext_", "F"), k=1, maxsets=3 if tier == "quick" else 5)
 
 
 def obligations(enc, inst, tr):
